@@ -21,3 +21,5 @@ var props = []*hx.Prop{
 }
 
 func TestVsim(t *testing.T) { hx.Main(t, props...) }
+
+func TestVsimRace(t *testing.T) { RaceLane(t) }
